@@ -120,15 +120,16 @@ CHECKS = {
         note=KERNEL_NOTE + ' Fake requests / websocket-client / aiohttp session objects are part '
              'of the trusted base.', design='4/C09'),
     'C10': dict(
-        technique='property-based testing of real client/server pairs of the same kind in one '
-                  'deterministic world (baton scheduler or virtual-time loop)',
+        technique='property-based testing of all four real client x server pairs in one '
+                  'deterministic world (baton scheduler, virtual-time loop, or both on one clock)',
         text='Generated conversations (bursts of 1..40 sends either way, payload kinds, sends from '
              'inside the connect handler, idle periods up to 50/300 heartbeat cycles, disconnect by '
              'either side) x transports x heartbeat settings; oracle: both message logs equal the '
              "other side's send log, no disconnect while connected, one disconnect on each side "
              'after either side disconnects.',
-        note=KERNEL_NOTE + ' Only same-kind pairs (threaded/threaded, asyncio/asyncio) are '
-             'exercised; cross-kind pairs are not claimed.', design='4/C10'),
+        note=KERNEL_NOTE + ' Cross-kind pairs run in a hybrid world in which the harness settles '
+             'the scheduler and the loop alternately; interleavings between the two kinds are '
+             'therefore coarser than within one kind.', design='4/C10'),
     'C11': dict(
         technique='enumeration of the configuration grid x handler outcomes on fresh servers, '
                   'model oracle; behavioural confirmation of advertised upgrades',
